@@ -22,10 +22,10 @@ Property theorems only (lemmas in `OpdaProofs/Quad{Dual,Equiv,NoisyDual,NoisyCur
   `Φ⁻¹(1−q) = −Φ⁻¹(q)` of the black box `normal_ppf` is a hypothesis.
 * **Integrated noisy average curve**: statements about the loop model `Opda.TrapLoop` at every
   refinement level `i` (the stopping index is decided in floating point and may differ by one between
-  two instances; the property's 2e-4 allows for that).  Reflection holds *with* the `1[y>0]` term;
-  location–scale equivariance holds for the integrand **without** it (`navg_repaired_affine`) and for
-  the code's integrand only when `0` lies outside the integration range (`…_partial`) — the
-  complement is finding F4.
+  two instances; the property's 2e-4 allows for that).  The model is the REPAIRED integrand of fix
+  `867c66b` (`E = lo + ∫(1−G)`, no `1[y>0]` term): reflection (`navg_reflect`) and location–scale
+  equivariance (`navg_affine`) hold at every refinement level with no side condition.  (Before the fix the
+  code's integrand was equivariant only when `0` lay outside the integration range — finding F4, repaired.)
 * **`sample`** (section `sample`): about the model of the two `sample` methods as functions of the generator's primitives
   (`OpdaModel/Sample.lean`, the terms the driver's `rng.*` ops evaluate at `Float`; that the code *is* this function of the
   primitives drawn from the same seed is compared bitwise by `corr_C13`), read at `ℝ`.  Location–scale: for the same
